@@ -381,11 +381,155 @@ pub fn check_backlog(case: &Backlog, obs: &mut Obs) -> CheckResult {
     Ok(())
 }
 
+// ------------------------------------------------------------------ real reader tasks
+
+/// The path a receiver datagram really takes: kernel socket -> the uplink's reader task (`spawn_reader`,
+/// `BatchUdpSocket::recv_batch`) -> uplink channel -> `drain_packet_queue` -> client. The reader tasks run on the
+/// shell's current-thread runtime, i.e. only when the harness lets them: no timing is involved.
+#[derive(Debug, Clone, Hash, Serialize, Deserialize)]
+pub enum RStep {
+    /// `n` datagrams to link `link` in one go (every `internal_every`+3rd one SRTLA-internal), payload length `len`
+    Burst { link: u16, n: u16, internal_every: u8, len: u16 },
+    /// the link falls silent, times out and is re-opened by the real housekeeping (new socket, reader restarted)
+    Reconnect { link: u16 },
+}
+
+#[derive(Debug, Clone, Hash, Serialize, Deserialize)]
+pub struct ReaderCase {
+    pub n_links: u8,
+    pub steps: Vec<RStep>,
+}
+
+fn reader_strategy() -> impl Strategy<Value = ReaderCase> {
+    let step = prop_oneof![
+        6 => (any::<u16>(), prop_oneof![2 => 1u16..32, 3 => proptest::sample::select(vec![31u16, 32, 33, 34, 63, 64, 65, 66, 96, 97, 128, 129]), 2 => 32u16..260], 0u8..5, prop_oneof![Just(8u16), Just(40), 2u16..1400])
+            .prop_map(|(link, n, internal_every, len)| RStep::Burst { link, n, internal_every, len }),
+        1 => any::<u16>().prop_map(|link| RStep::Reconnect { link }),
+    ];
+    (1u8..=3, vec(step, 1..5)).prop_map(|(n_links, steps)| ReaderCase { n_links, steps })
+}
+
+pub fn check_readers(case: &ReaderCase, obs: &mut Obs) -> CheckResult {
+    let n = case.n_links as usize;
+    let addrs: Vec<u8> = (0..n as u8).collect();
+    let mut sh = Shell::new(&addrs, ConfigSnapshot::default());
+    sh.establish_all();
+    let mut p = vec![0u8; 32];
+    p[0..4].copy_from_slice(&7u32.to_be_bytes());
+    sh.client_pkt(&p);
+    sh.flush_tick();
+    let _ = sh.drain_client();
+    let _ = sh.drain_wire();
+    sh.sync_readers();
+    sh.pump(1);
+    let mut tag = 0u32;
+    // run reader tasks and drain passes until `done` or nothing has moved for a few rounds
+    let settle = |sh: &mut Shell, got: &mut Vec<Vec<u8>>, want: usize| {
+        let mut idle = 0;
+        for _ in 0..400 {
+            sh.pump(1);
+            sh.drain_queue();
+            let before = got.len();
+            got.extend(sh.drain_client());
+            got.append(&mut sh.st.instant_forwarded);
+            if got.len() >= want && want > 0 {
+                // one more round so that anything unexpected shows up too
+                sh.pump(1);
+                sh.drain_queue();
+                got.extend(sh.drain_client());
+                got.append(&mut sh.st.instant_forwarded);
+                break;
+            }
+            if got.len() == before {
+                idle += 1;
+                if idle >= 8 {
+                    break;
+                }
+            } else {
+                idle = 0;
+            }
+        }
+    };
+    for (si, st) in case.steps.iter().enumerate() {
+        match st {
+            RStep::Burst { link, n: cnt, internal_every, len } => {
+                let li = crate::rt::idx(*link, n);
+                let mut expected: Vec<Vec<u8>> = Vec::new();
+                for k in 0..*cnt {
+                    tag += 1;
+                    let internal = *internal_every > 0 && k % (*internal_every as u16 + 3) == 0;
+                    let mut d = if internal { vec![0x91, 0x00, 0, 0] } else if k % 3 == 0 { vec![0x80, 0x02, 0, 0] } else { vec![0x80, 0x07, 0, 0] };
+                    d.extend_from_slice(&tag.to_be_bytes());
+                    d.resize(d.len().max(*len as usize), (tag as u8).wrapping_mul(13));
+                    if !internal {
+                        expected.push(d.clone());
+                    }
+                    vensure!(sh.rx_send_link(li, &d), "harness", "step {si}: cannot send to link {li}");
+                }
+                let mut got: Vec<Vec<u8>> = Vec::new();
+                settle(&mut sh, &mut got, expected.len());
+                let missing = expected.iter().filter(|e| !got.contains(e)).count();
+                vensure!(
+                    missing == 0,
+                    "reader-datagram-stranded",
+                    "step {si}: {cnt} datagrams arrived on link {li}'s socket in one burst; {missing} of the {} relayable ones never reached the client although the reader task and the drain passes ran until nothing moved",
+                    expected.len()
+                );
+                for g in &got {
+                    vensure!(expected.contains(g), "reader-unexpected-datagram", "step {si}: the client received a datagram that is not relayable traffic of this burst ({} bytes, type {:?})", g.len(), rc::packet_type(g));
+                }
+                if *cnt > 32 {
+                    obs.nontrivial = true;
+                    obs.class("burst-over-one-recvmmsg");
+                }
+            }
+            RStep::Reconnect { link } => {
+                let li = crate::rt::idx(*link, n);
+                let old_port = sh.local_port(li);
+                let timeout = sh.st.cfg.conn_timeout_ms;
+                sh.advance(timeout + 1);
+                // the other links were heard from in the meantime
+                for j in 0..n {
+                    if j != li {
+                        sh.uplink_pkt(j, &[0x80, 0x06, 0, 0, 0, 0, 0, 0, 0, 0, 0, 0, 0, 0, 0, 0]);
+                    }
+                }
+                let _ = sh.drain_client();
+                sh.st.instant_forwarded.clear();
+                sh.housekeeping_core();
+                let new_port = sh.local_port(li);
+                let _ = sh.drain_wire();
+                if new_port == old_port || new_port == 0 {
+                    obs.class("reconnect-not-due");
+                    continue;
+                }
+                vensure!(!sh.st.conns[li].connected, "harness", "step {si}: link {li} still connected after its socket was re-opened");
+                // let the runtime retire the replaced reader, then a late REG3 addressed to the replaced socket
+                sh.pump(1);
+                let _ = sh.rx_send_port(li, old_port, &[0x92, 0x02]);
+                let mut sink = Vec::new();
+                settle(&mut sh, &mut sink, 0);
+                vensure!(!sh.st.conns[li].connected, "replaced-socket-still-heard", "step {si}: link {li} re-opened its socket (port {old_port} -> {new_port}); a REG3 sent to the replaced socket made it connected");
+                // the REG3 on the current socket must be heard (reader restarted on the new socket)
+                vensure!(sh.rx_send_link(li, &[0x92, 0x02]), "harness", "step {si}: cannot send to link {li}");
+                settle(&mut sh, &mut sink, 0);
+                vensure!(sh.st.conns[li].connected, "reader-not-restarted", "step {si}: link {li} re-opened its socket; the REG3 sent to the new socket was never processed");
+                obs.nontrivial = true;
+                obs.class("socket-replaced");
+            }
+        }
+    }
+    if obs.nontrivial {
+        obs.sample = Some(json!({"links": n, "steps": format!("{:?}", case.steps)}));
+    }
+    Ok(())
+}
+
 pub fn run(ctx: &Ctx) -> &'static str {
     ctx.assume("reference classification uses the first two bytes only; internal = {0x9000, 0x9100, 0x9201, 0x9202, 0x9210, 0x9211}; registration replies = {0x9201, 0x9202, 0x9210, 0x9211}");
     ctx.assume("delivery proof may also be cleared (to 0) by the link reset a REG_ERR causes; that is not 'counting as proof'");
     for (file, body) in ctx.replay_files() {
-        if !(ctx.replay_case::<Case, _>("datagrams", &file, &body, check) || ctx.replay_case::<Backlog, _>("backlog", &file, &body, check_backlog)) {
+        if !(ctx.replay_case::<Case, _>("datagrams", &file, &body, check) || ctx.replay_case::<Backlog, _>("backlog", &file, &body, check_backlog) || ctx.replay_case::<ReaderCase, _>("readers", &file, &body, check_readers)) {
             eprintln!("replay {}: unknown part", file.display());
         }
     }
@@ -406,6 +550,13 @@ pub fn run(ctx: &Ctx) -> &'static str {
         ctx.tier.pick(600, 10_000),
         backlog_strategy,
         |_| check_backlog,
+    );
+    ctx.explore(
+        "readers",
+        "receiver datagrams through the kernel: bursts of 1..260 datagrams (around 32 / 64 / 128, payload 8..1400 bytes, some SRTLA-internal) sent to a link's socket, read by the real reader task (spawn_reader / BatchUdpSocket::recv_batch) on the shell's current-thread runtime, drained by the real drain_packet_queue; links timing out and re-opened by the real housekeeping in between (a REG3 to the replaced socket must fall on deaf ears, one to the new socket must be heard); every relayable datagram reaches the client, nothing else does; non-trivial = a burst of more than 32 datagrams or a replaced socket",
+        ctx.tier.pick(1_500, 30_000),
+        reader_strategy,
+        |_| check_readers,
     );
     // the real reader tasks, uplink channel and drain passes
     crate::props::e2e::run(ctx, crate::props::e2e::Phase::Relay, ctx.tier.pick(1, 6));
